@@ -167,16 +167,16 @@ def _lst(sx, c, st):
 
 def typed_empty(sx, ref, st, elem_ty, kind="list"):
     """an ('emptylist',) placeholder cell gets its element type at first typed use"""
-    c = st.heap[ref.cell]
+    c = st.getcell(ref.cell)
     if isinstance(c, tuple) and c[0] == "emptylist":
         t = V.List(elem_ty)
-        st.heap[ref.cell] = Val(t, t.empty())
+        st.setcell(ref.cell, Val(t, t.empty()))
         ref.ty = t
     elif isinstance(c, tuple) and c[0] == "emptyset":
         t = V.Set(elem_ty)
-        st.heap[ref.cell] = Val(t, t.empty())
+        st.setcell(ref.cell, Val(t, t.empty()))
         ref.ty = t
-    return st.heap[ref.cell]
+    return st.getcell(ref.cell)
 
 
 def contains(sx, container, item, st, node):
@@ -197,7 +197,7 @@ def contains(sx, container, item, st, node):
         else:
             raise Unsupported("`in` on concrete %r" % (cv,), node)
     if isinstance(container, Ref):
-        c = st.heap[container.cell]
+        c = st.getcell(container.cell)
         if isinstance(c, tuple):
             return [(st, z3.BoolVal(False), None)]
         if isinstance(c, dict):
@@ -436,7 +436,7 @@ def index(sx, c, k, st, node):
             return cv.__pyvc_getitem__(sx, k, st, node)
         raise Unsupported("subscript of concrete %r" % (cv,), node)
     if isinstance(c, Ref):
-        content = st.heap[c.cell]
+        content = st.getcell(c.cell)
         if isinstance(content, dict):
             m = sx.reg.obj_getitem(sx, c, k, st, node)
             if m is not None:
@@ -583,7 +583,7 @@ def setitem(sx, c, k, val, st, node):
             return [(st, None)]
         raise Unsupported("symbolic key store into concrete dict", node)
     if isinstance(c, Ref):
-        content = st.heap[c.cell]
+        content = st.getcell(c.cell)
         if isinstance(content, dict):
             m = sx.reg.obj_setitem(sx, c, k, val, st, node)
             if m is not None:
@@ -598,7 +598,7 @@ def setitem(sx, c, k, val, st, node):
         t = content.ty
         if isinstance(t, V.Dict):
             val = sx.coerce(val, t.v, st)
-            st.heap[c.cell] = Val(t, t.mk(z3.Store(t.dom(content.term), k.term, True), z3.Store(t.map(content.term), k.term, val.term)))
+            st.setcell(c.cell, Val(t, t.mk(z3.Store(t.dom(content.term), k.term, True), z3.Store(t.map(content.term), k.term, val.term))))
             return [(st, None)]
         if isinstance(t, V.List):
             n = t.n(content.term)
@@ -609,7 +609,7 @@ def setitem(sx, c, k, val, st, node):
                 outs.append((st.fork().assume(z3.Not(inb)), Exc("IndexError")))
             st.assume(inb)
             val = sx.coerce(val, t.elem, st)
-            st.heap[c.cell] = Val(t, t.mk(z3.Store(t.arr(content.term), norm_index(idx, n), val.term), n))
+            st.setcell(c.cell, Val(t, t.mk(z3.Store(t.arr(content.term), norm_index(idx, n), val.term), n)))
             outs.append((st, None))
             return outs
     if isinstance(c, Val) and isinstance(c.ty, V._Json):
@@ -622,7 +622,7 @@ def setitem(sx, c, k, val, st, node):
 
 def delitem(sx, c, k, st, node):
     if isinstance(c, Ref):
-        content = st.heap[c.cell]
+        content = st.getcell(c.cell)
         if isinstance(content, dict):
             m = sx.reg.obj_delitem(sx, c, k, st, node)
             if m is not None:
@@ -635,7 +635,7 @@ def delitem(sx, c, k, st, node):
             if sx.feasible(st, z3.Not(has)):
                 outs.append((st.fork().assume(z3.Not(has)), Exc("KeyError")))
             st.assume(has)
-            st.heap[c.cell] = Val(t, t.mk(z3.Store(t.dom(content.term), k.term, False), t.map(content.term)))
+            st.setcell(c.cell, Val(t, t.mk(z3.Store(t.dom(content.term), k.term, False), t.map(content.term))))
             outs.append((st, None))
             return outs
     raise Unsupported("del item on %r" % (c,), node)
